@@ -34,6 +34,9 @@ CLAIMED = {
  'C14': ("static analysis: RESET rule (fields dirtied outside a reuse entry must be re-initialised on every non-failing path of it, through helpers), provenance of pooled objects, aliasing check of the pooled snappy writer",
          "Decides only the reuse-history clause of the property: for 13 reusable encoder/decoder/buffer types every field, sub-object or array element written outside the reuse entry is re-initialised on every non-failing path of that entry; pooled encoders are reset before "
          "being handed out and pooled decoders are re-initialised before any other use at every call site; the pooled snappy writer returns a fresh copy taken before its buffer is reset. Losslessness of the codecs for arbitrary inputs is a numeric property and is not decided."),
+ 'C15': ("static analysis: must-fact guards on the add and streaming write paths, ordered writes and offset/width agreement of the table footer between builder and reader, membership-before-rank, inclusive file selection, path rule re-establishing the heap after a key change",
+         "Decides structural conditions of table building, lookup and merging: a rejected key causes no write and no index update on either path (strict key > last-key test); the indexed offset is taken before the value is written; offsets, keys, footer written in that order and the footer fields are read back at the offsets/widths written, "
+         "with equal footer size and magic position; rank only for member keys; min <= key <= max inclusive over all levels and every selected file is visited; after the merged iterator changes a queued item's key the heap is re-established on every path, one pop per step. Rank/offset arithmetic and value bytes are not decided."),
  'C16': ("static analysis: RESET rule for pooled rows/batches/converters, ordered-dominance (validate<dedup<every read of the tag list), switch exhaustiveness over the field-type enum, provenance of the shard index, edge facts of the write-window test, role binding of (behind, ahead) along the call chain",
          "Decides structural conditions of canonicalisation and routing: a re-filled pooled row is completely re-initialised; batch and converter reset all accumulation buffers; validation precedes building, tags are sorted and de-duplicated before any read of the tag list (so hash and stored key/values see the same tags); "
          "every simple field type has a case; shard index of row i = jump-hash(tags hash of row i, shard count) for all rows; a row is marked out-of-range only on the two window-violation edges and the bounds reach the test in the role order of the signature. Hash value properties, format agreement and limits are not decided."),
